@@ -16,6 +16,9 @@ func (v *Vue) evalAttributes(ctx VueContext, n *html.Node) (map[string]any, erro
 	}
 
 	results := map[string]any{}
+	// boundOrder records bound attribute names in source order so that the
+	// output does not depend on map iteration order.
+	var boundOrder []string
 
 	var newAttrs []html.Attribute
 
@@ -46,6 +49,9 @@ func (v *Vue) evalAttributes(ctx VueContext, n *html.Node) (map[string]any, erro
 			if !helpers.IsTruthy(boundValue) {
 				continue
 			}
+			if _, seen := results[boundName]; !seen {
+				boundOrder = append(boundOrder, boundName)
+			}
 			results[boundName] = boundValue
 		default:
 			var err error
@@ -63,7 +69,8 @@ func (v *Vue) evalAttributes(ctx VueContext, n *html.Node) (map[string]any, erro
 	}
 
 	// Second pass: merge bound attributes with static ones
-	for attrName, boundValue := range results {
+	for _, attrName := range boundOrder {
+		boundValue := results[attrName]
 		// Check if there's a static attribute with the same name
 		staticIdx := -1
 		for i, a := range newAttrs {
@@ -356,47 +363,58 @@ func parseValue(s string) interface{} {
 }
 
 // mergeStyles merges static and bound CSS styles, with bound values taking precedence.
+// Declarations keep their source order: static ones first (overridden in place),
+// then bound ones that were not present.
 func (v *Vue) mergeStyles(staticStyle, boundStyle string) string {
-	// Parse both styles into maps
-	staticMap := parseStyleMap(staticStyle)
-	boundMap := parseStyleMap(boundStyle)
-
-	// Merge: bound values override static ones
-	for k, v := range boundMap {
-		staticMap[k] = v
+	decls := parseStyleDecls(staticStyle)
+	for _, d := range parseStyleDecls(boundStyle) {
+		decls = setStyleDecl(decls, d.key, d.val)
 	}
+	return joinStyleDecls(decls)
+}
 
-	// Rebuild style string
-	var styles []string
-	for k, v := range staticMap {
-		styles = append(styles, k+":"+v+";")
+type styleDecl struct{ key, val string }
+
+// parseStyleDecls parses a CSS style string into an ordered list of declarations;
+// a repeated property keeps its first position and its last value.
+func parseStyleDecls(style string) []styleDecl {
+	var decls []styleDecl
+	for _, part := range strings.Split(style, ";") {
+		part = strings.TrimSpace(part)
+		if part == "" {
+			continue
+		}
+		kv := strings.SplitN(part, ":", 2)
+		if len(kv) == 2 {
+			decls = setStyleDecl(decls, strings.TrimSpace(kv[0]), strings.TrimSpace(kv[1]))
+		}
 	}
-	return strings.Join(styles, "")
+	return decls
+}
+
+func setStyleDecl(decls []styleDecl, key, val string) []styleDecl {
+	for i := range decls {
+		if decls[i].key == key {
+			decls[i].val = val
+			return decls
+		}
+	}
+	return append(decls, styleDecl{key, val})
+}
+
+func joinStyleDecls(decls []styleDecl) string {
+	var sb strings.Builder
+	for _, d := range decls {
+		sb.WriteString(d.key + ":" + d.val + ";")
+	}
+	return sb.String()
 }
 
 // parseStyleMap parses a CSS style string into a map of properties to values.
 func parseStyleMap(style string) map[string]string {
 	result := make(map[string]string)
-	if style == "" {
-		return result
+	for _, d := range parseStyleDecls(style) {
+		result[d.key] = d.val
 	}
-
-	// Split by semicolon to get individual properties
-	parts := strings.Split(style, ";")
-	for _, part := range parts {
-		part = strings.TrimSpace(part)
-		if part == "" {
-			continue
-		}
-
-		// Split by colon to get key-value pair
-		kv := strings.SplitN(part, ":", 2)
-		if len(kv) == 2 {
-			key := strings.TrimSpace(kv[0])
-			val := strings.TrimSpace(kv[1])
-			result[key] = val
-		}
-	}
-
 	return result
 }
